@@ -319,6 +319,13 @@ func (c *Config) validate() error {
 	if c.MaxCommittedSizePerReady == 0 {
 		c.MaxCommittedSizePerReady = c.MaxSizePerMsg
 	}
+	// MaxSizePerMsg == 0 is documented as "at most one entry per message". A
+	// zero apply quota, however, makes raftLog.nextCommittedEnts panic ("applying
+	// entry size (0-0)=0 not positive") on the first committed entry. The
+	// smallest positive quota has the intended meaning: one entry at a time.
+	if c.MaxCommittedSizePerReady == 0 {
+		c.MaxCommittedSizePerReady = 1
+	}
 
 	if c.MaxInflightMsgs <= 0 {
 		return errors.New("max inflight messages must be greater than 0")
